@@ -82,6 +82,7 @@ type opSpec struct {
 	Size       int    `json:"size,omitempty"` // bytes of padding
 	Via        string `json:"via,omitempty"`  // incoming | peer | stress
 	Late       bool   `json:"late,omitempty"` // first advance to two ticks past the trace's modelled deadline (if the trace was seen)
+	Settle     bool   `json:"settle,omitempty"` // afterwards advance to two ticks past the trace's modelled deadline (the trace gets decided)
 
 	// advance: D ms (plus Ns nanoseconds). With Aim set, the advance goes to the aimed
 	// instant plus (D ms + Ns ns) if that is in the future, else 0:
@@ -562,6 +563,12 @@ func runInBubble(c colCase, opt execOpts, obs *colObs) {
 			}
 			a.StressTrace = stressFirst[op.Trace]
 			obs.Spans = append(obs.Spans, a)
+			if m := models[op.Trace]; op.Settle && m != nil {
+				if target := m.Deadline + 2*c.Cfg.tick(); target > time.Since(start) {
+					time.Sleep(target - time.Since(start))
+					synctest.Wait()
+				}
+			}
 		case "advance":
 			d := time.Duration(op.D)*time.Millisecond + time.Duration(op.Ns)
 			if op.Aim != "" {
